@@ -66,7 +66,8 @@ def alphabet(env):
             ("bad", "P", "herald_type"), ("bad", "Q", "add_oversize_span"), ("bad", "P", "bs_loss_string"),
             ("bad", "Q", "ps_loss_string"), ("bad", "P", "loss_string"), ("bad", "P", "bs_refl_string"), ("bad", "Q", "add_oversize_heralded_span"),
             ("bad", "P", "add_oversize_heralded_span"), ("bad", "P", "bs_loss_param"), ("bad", "Q", "ps_loss_param"),
-            ("bad", "P", "loss_param")]
+            ("bad", "P", "loss_param"), ("bad", "P", "add_heralded_name_int"), ("bad", "Q", "add_heralded_name_int"),
+            ("bad", "P", "swap_pairs_list")]
     return ops
 
 
@@ -170,6 +171,13 @@ def apply_op(pool, op, env):
                 # fits by a plain mode count, oversize only because an ancilla lies inside the span
                 hs = lw.Unitary(env.U[5].copy()); hs.herald(1, 2, 2)
                 c.add(hs, 1)
+            elif what == "add_heralded_name_int":      # accepted today (then an ordinary edit); if refused, nothing may remain
+                c.add(pool["B"], 1, name=5)
+            elif what == "swap_pairs_list":            # not a dictionary
+                try:
+                    c.mode_swaps([(0, 1), (2, 7)])
+                except Exception:  # noqa: BLE001
+                    return op[1], True
             elif what == "bs_loss_param": c.bs(0, 1, loss=lw.Parameter(1.5))       # invalid value held by a Parameter
             elif what == "ps_loss_param": c.ps(0, 0.3, loss=lw.Parameter(-0.2))
             elif what == "loss_param": c.loss(1, lw.Parameter("x"))
